@@ -29,9 +29,9 @@ class Setup(Exception):
 
 def discover(I):
     prog = I.prog
-    cands = [(adt, key) for (tr, m, adt), key in I.impl_index.items() if tr == WRITE_T and m == "write_str" and adt.startswith("crate::debug_pretty_print::")]
+    cands = [(adt, key) for (tr, m, adt), key in I.impl_index.items() if tr == WRITE_T and m == "write_str" and adt.startswith("crate::")]
     if len(cands) != 1:
-        raise Setup("expected exactly one fmt::Write implementation in debug_pretty_print, found %d" % len(cands))
+        raise Setup("expected exactly one fmt::Write implementation in the crate, found %d" % len(cands))
     wadt, write_str = cands[0]
     a = prog.adts[wadt]
     fields = a["variants"][0]["fields"]
